@@ -170,6 +170,15 @@ func init() {
 		"github.com/snapcore/snapd/logger.Trace":   extNop,
 		"github.com/snapcore/snapd/logger.NoGuardDebugf": extNop,
 
+		// ---- snapd i18n: identity (no translation catalogue) ----
+		"github.com/snapcore/snapd/i18n.G": func(fr *frame, a []value) value { return a[0] },
+		"github.com/snapcore/snapd/i18n.NG": func(fr *frame, a []value) value {
+			if n, ok := a[2].(int); ok && n == 1 {
+				return a[0]
+			}
+			return a[1]
+		},
+
 		// ---- os / environment (deterministic, empty) ----
 		"os.Getenv":    func(fr *frame, a []value) value { return fr.i.getenv(a[0]) },
 		"os.LookupEnv": func(fr *frame, a []value) value { s := fr.i.getenv(a[0]); return tuple{s, s != ""} },
